@@ -12,6 +12,9 @@
 (*   class "fail"  resolving ev fails: data.ev = null and one error with   *)
 (*                 path [ev]                               -> "nullerr"    *)
 (*   class "nil"   the event is nil: data.ev = null, no errors -> "null"   *)
+(*   class "slow"  like "ok", but the resolver of ev parks on a gate of    *)
+(*                 the harness until the script's "release" move; the      *)
+(*                 result (after the release) is the object -> "obj"       *)
 (* A request that fails to parse / validate / subscribe yields one result  *)
 (* without data and with at least one error                -> "reqerr"     *)
 (* An event executed while the context is already done may yield no data   *)
@@ -20,6 +23,7 @@
 Shape(c) == CASE c = "ok"     -> "obj"
               [] c = "fail"   -> "nullerr"
               [] c = "nil"    -> "null"
+              [] c = "slow"   -> "obj"
               [] c = "reqerr" -> "reqerr"
               [] c = "ctxerr" -> "ctxerr"
               [] OTHER        -> "-"
